@@ -99,7 +99,7 @@ def pushedBy (m : Machine π) : State π → List (Op π) → List (Member π)
     | .push gs, .ok _ => gs ++ pushedBy m s' ops
     | _, _ => pushedBy m s' ops
 
-theorem step_geoms (s : State π) (op : Op π) :
+theorem step_geoms (s : State π) (op : Op π) (hng : op.isGrow = false) :
     (step model s op).1.geoms = s.geoms ++
       (match op, modelPush s (match op with | .push gs => gs | _ => []) with
        | .push gs, .ok _ => gs
@@ -124,17 +124,27 @@ theorem step_geoms (s : State π) (op : Op π) :
   | num => simp [step]
   | geoms => simp [step]
   | geom i => simp [step]
+  | grow i l => simp [Op.isGrow] at hng
+
+theorem growAt_payload (gs : List (Member π)) (i : Nat) (l : Layout) :
+    (growAt gs i l).map (·.payload) = gs.map (·.payload) := by
+  induction gs generalizing i with
+  | nil => rfl
+  | cons m ms ih =>
+    cases i with
+    | zero => rfl
+    | succ i => simp [growAt, ih]
 
 /-- After any history the members are the initial ones followed by exactly the arguments of the
 successful Push calls, in order; hence NumGeoms is their number and Geom(i) is the i-th of them. -/
-theorem C02_coll_parts (ops : List (Op π)) : ∀ s : State π,
+theorem C02_coll_parts (ops : List (Op π)) (hng : ∀ op ∈ ops, op.isGrow = false) : ∀ s : State π,
     (runFrom model s ops).2.geoms = s.geoms ++ pushedBy model s ops := by
   induction ops with
   | nil => intro s; simp [runFrom, pushedBy]
   | cons op ops ih =>
     intro s
     simp only [runFrom]
-    rw [ih, step_geoms]
+    rw [ih (fun o ho => hng o (List.mem_cons_of_mem _ ho)), step_geoms s op (hng op (by simp))]
     cases op with
     | push gs =>
       simp only [pushedBy, model]
@@ -144,6 +154,42 @@ theorem C02_coll_parts (ops : List (Op π)) : ∀ s : State π,
     | num => simp [pushedBy]
     | geoms => simp [pushedBy]
     | geom i => simp [pushedBy]
+    | grow i l => simp [pushedBy]
+
+/-- … and when the caller grows nested members in between (members are shared with the caller),
+the members are still those parts, in that order: only the layout the collection sees through a
+grown member changes. -/
+theorem C02_coll_parts_payloads (ops : List (Op π)) : ∀ s : State π,
+    ((runFrom model s ops).2.geoms).map (·.payload)
+      = (s.geoms ++ pushedBy model s ops).map (·.payload) := by
+  induction ops with
+  | nil => intro s; simp [runFrom, pushedBy]
+  | cons op ops ih =>
+    intro s
+    simp only [runFrom]
+    rw [ih]
+    by_cases hg : op.isGrow = false
+    · rw [step_geoms s op hg]
+      cases op with
+      | push gs =>
+        simp only [pushedBy, model]
+        cases modelPush s gs <;> simp [List.append_assoc]
+      | setLayout l => simp [pushedBy]
+      | layout => simp [pushedBy]
+      | num => simp [pushedBy]
+      | geoms => simp [pushedBy]
+      | geom i => simp [pushedBy]
+      | grow i l => simp [pushedBy]
+    · cases op with
+      | grow i l => simp [step, pushedBy, growAt_payload]
+      | _ => simp [Op.isGrow] at hg
+
+/-- Non-vacuity of `grow`: a collection holding a nested XYZ member sees XYZM once the caller has
+pushed an XYM part into that member, and a fixed layout can then no longer be set. -/
+example : run (π := Nat) model
+    [.push [⟨2, 10⟩], .layout, .grow 0 3, .layout, .setLayout 2, .num]
+    = [.res (.ok ()), .layout 2, .res (.ok ()), .layout 4, .res (.err (.layoutMismatch 2 4)), .num 1] := by
+  decide
 
 /-- Non-vacuity: a fixed-layout collection refuses a mixed variadic Push as a whole. -/
 example : run (π := Nat) model
